@@ -1,7 +1,7 @@
 (* C04 — exported theorems only: each is closed by [exact] and followed by Print Assumptions. *)
 From Coq Require Import List ZArith Bool.
 From Verif Require Import Lib.Interleave Lib.InterleaveX.
-From Verif Require Import C04.Model C04.Spec C04.Proofs C04.Proofs_state C04.Proofs_decl C04.Proofs_rec C04.Proofs_main C04.Proofs_more C04.Sections C04.Proofs_conc.
+From Verif Require Import C04.Model C04.Spec C04.Proofs C04.Proofs_state C04.Proofs_decl C04.Proofs_rec C04.Proofs_wire C04.Proofs_main C04.Proofs_more C04.Sections C04.Proofs_conc.
 Import ListNotations.
 Open Scope Z_scope.
 
@@ -155,6 +155,41 @@ Theorem c04_once_satisfied_only_by_bind : forall h s o r,
 Proof. exact once_satisfied_only_by_bind. Qed.
 Print Assumptions c04_once_satisfied_only_by_bind.
 
+(* ... and along a history without binds no record (in the map or private) is once-satisfied *)
+Theorem c04_no_bind_no_satisfied : forall h ops s,
+  (forall r, sat_at s r = false) -> forallb (fun o => negb (bindsb o)) ops = true ->
+  forall r, sat_at (exec h s ops) r = false.
+Proof. exact no_bind_no_satisfied. Qed.
+Print Assumptions c04_no_bind_no_satisfied.
+
+(* no stale group record: while every gang in the cache is wired to the map's record of its own declared
+   group and the gangs of a group declare the same group ([well_wired]: checked at every prefix, a
+   conjunction of boolean equations), every record in the gang-group map has a gang of its group id in the
+   cache ... *)
+Theorem c04_no_stale_record : forall h ops s,
+  keys_live s -> well_wired h s ops -> keys_live (exec h s ops).
+Proof. exact no_stale_record. Qed.
+Print Assumptions c04_no_stale_record.
+
+(* ... so when the last gang has left, the map is empty and a group submitted again starts unsatisfied *)
+Theorem c04_empty_cache_empty_map : forall h ops,
+  well_wired h init_state ops -> st_gangs (exec h init_state ops) = [] -> st_gmap (exec h init_state ops) = [].
+Proof. exact empty_cache_empty_map. Qed.
+Print Assumptions c04_empty_cache_empty_map.
+
+(* the guard is needed (findings/C04-stale-group-record.md, reproduced on the code): after a PodGroup's group
+   annotation was edited, all gangs leave, a satisfied record stays in the map, and the first member of the
+   re-submitted gang (min 3) is released alone *)
+Theorem c04_stale_record_refuted :
+  let l := run stale_hdr stale_ops in
+  option_map (fun o => (sv_gangs (snd o), sv_recs (snd o))) (nth_error l 6) = Some ([], [([1; 2], true)])
+  /\ option_map (fun o => o_res (fst o)) (nth_error l 10) = Some res_success
+  /\ option_map (fun o => option_map (fun x => (v_min x, v_waiting x, v_bound x)) (vget (snd o) 1)) (nth_error l 10)
+     = Some (Some (3, [1], []))
+  /\ ~ well_wired stale_hdr init_state stale_ops.
+Proof. exact stale_record_witness. Qed.
+Print Assumptions c04_stale_record_refuted.
+
 (* limits, as theorems: the partition sentence without the protocol guard is false of the model *)
 Theorem c04_partition_unguarded_refuted :
   exists h ops, ~ all_partition_ok (view (exec h init_state ops)).
@@ -218,3 +253,11 @@ Example c04_nonatomic_create_loses_member_example :
   /\ option_map d_children (assocZ 1 split) = Some []
   /\ option_map d_children (assocZ 1 (fold_left (decl_step h) [PodAdd 0 false; PGAdd 1 c] [])) = Some [0].
 Proof. exact nonatomic_create_loses_member. Qed.
+
+(* non-vacuity of [well_wired]: two annotation gangs of one group are released together, bound (record
+   satisfied) and deleted; the cache ends empty *)
+Example c04_well_wired_example :
+  well_wired exw_hdr init_state exw_ops
+  /\ st_gangs (exec exw_hdr init_state exw_ops) = []
+  /\ option_map (fun o => sv_recs (snd o)) (nth_error (run exw_hdr exw_ops) 5) = Some [([1; 2], true)].
+Proof. exact well_wired_example. Qed.
